@@ -61,6 +61,34 @@ def check_ro(project: Project, rep):
         s = oa.summary(tr.qualname)
         selfp = tr.params[0]
         evs = [ev for ev in s.events if ev.origin.is_arg and ev.origin.param == selfp and ev.kind in ("attrstore", "write")]
+        # a memo slot (rebuilt whenever the recorded key changes) is not fitted state: it is decided by what the key contains
+        from . import memo_rule
+        memo_seen = {}
+        kept = []
+        for ev in evs:
+            r_ = None
+            if ev.kind == "attrstore" and ev.attr:
+                if ev.attr not in memo_seen:
+                    try:
+                        memo_seen[ev.attr] = memo_rule.classify_attr(project, c, ev.attr)
+                    except Exception:
+                        memo_seen[ev.attr] = None
+                r_ = memo_seen[ev.attr]
+            if r_ is None:
+                kept.append(ev)
+                continue
+            tag = (r_["slot"], r_["key_attr"])
+            if tag in memo_seen:
+                continue
+            memo_seen[tag] = True
+            if r_["verdict"] == "ok":
+                rep.discharged("TF-CACHE", r_["fi"], r_["node"], r_["why"])
+            elif r_["verdict"] == "refuted":
+                rep.refuted("TF-CACHE", r_["fi"], r_["node"], r_["why"] + ": a refit does not forget the past",
+                            construct=f"{r_['fi'].qualname}: memo {r_['slot']}")
+            else:
+                rep.unmodelled("TF-CACHE", r_["fi"], r_["node"], f"memo slot `{r_['slot']}`: {r_['why']}")
+        evs = kept
         if evs:
             for ev in evs:
                 owner = project.functions.get(ev.func) or tr
